@@ -31,7 +31,29 @@ def c20(prop, tier):
         acts = [s['action'] for s in b['steps']]
         if 'Poll' in acts and 'Publish' in acts:
             ck.distinct.add(vlib.beh_signature(b))
-    inp = {'property': prop, 'seed': SEED, 'behaviours': sims, 'frames': True, 'names': 6 if thorough else 2}
+    # message path against a reader that stalls: spec/TransportFlow.tla (one unit of the model = 64 messages, channel of 2 x 64)
+    def flow_cfg(spec, drop, msgs=6):
+        return ('TransportFlow.cfg', '''SPECIFICATION %s
+CONSTANTS Peers = {"p1", "p2"}  Self = "me"  MaxMsgs = %d  Cap = 2  DropWhenFull = %s
+INVARIANTS Lossless
+CHECK_DEADLOCK FALSE
+''' % (spec, msgs, 'TRUE' if drop else 'FALSE'))
+    fr = vlib.tlc_check('TransportFlow.tla', flow_cfg('Spec', False), 'C20-flow')
+    ck.require_model_ok(fr, 'TransportFlow: Lossless with a waiting forwarder')
+    flows = []
+    fm = vlib.tlc_check('TransportFlow.tla', flow_cfg('SimSpec', True), 'C20-flow-mutant')
+    ck.add_tlc(fm, 'TransportFlow with DropWhenFull (mutant specification)')
+    if fm.get('violated') == 'Lossless' and fm.get('trace'):
+        flows.append({'id': 'drop-when-full-counterexample', 'steps': fm['trace']})
+    else:
+        ck.inconclusive.append('mutant specification (DropWhenFull) not refuted by TLC: vacuity guard failed')
+    fsims, _ = vlib.tlc_simulate('TransportFlow.tla', flow_cfg('SimSpec', False, 8), 'C20-flow-sim', 60 if thorough else 12, 24, SEED + 5)
+    flows += fsims
+    for b in flows:
+        # non-trivial: the channel was full at some point (the forwarder had to wait)
+        if any(len(s['state'].get('chan', [])) >= 2 and len(s['state'].get('wire', [])) > 0 for s in b['steps']):
+            ck.distinct.add(vlib.beh_signature(b))
+    inp = {'property': prop, 'seed': SEED, 'behaviours': sims, 'frames': True, 'names': 6 if thorough else 2, 'flows': flows, 'flow_unit': 64}
     res = vlib.run_vh('transport', inp, tag='C20', timeout=900 if not thorough else 3000)
 
     def payload(v):
